@@ -205,5 +205,6 @@ Eval(t, st) ==
 
 \* a top-level evaluation result as the caller sees it (C04: the float64 handed back is
 \* decided separately); the final map and the host-call log are part of the observation
-Outcome(t, st) == Eval(t, st)
+\* a symbolic "text that parses back to d" (toString of a number) is not a comparable final value
+Outcome(t, st) == LET o == Eval(t, st) IN IF o[1] = "ok" /\ o[2][1] = "strnum" THEN Unspec ELSE o
 =============================================================================
